@@ -55,6 +55,8 @@ def main():
              "kind_free_text": "python driver + Go in-package harnesses injected with go test -overlay under build tag verif; child processes, event logs, offline judge"},
             {"name": "go-race-detector", "path": "check", "serves_properties": [c["property_id"] for c in checks if c["engine"] == "go-race-detector"],
              "kind_free_text": "go test -race builds of the same harnesses; reports parsed from GORACE log_path files"},
+            {"name": "porcupine-judge", "path": "judge", "serves_properties": ["C14"],
+             "kind_free_text": "Go program (module verif/judge, porcupine v1.3.0): linearizability of recorded AddValue/MultipleMatch/NearestMatch histories against a per-key model"},
         ],
         "checks": checks,
         "notes": "See DESIGN.md. Known findings: known_findings.json. Seeded breaks used to validate the monitors: seeded/.",
